@@ -8,7 +8,9 @@ idx = json.load(open(ip))
 e = next((x for x in idx if x['name'] == name), None)
 if e is None:
     m = json.load(open('/verif/seeded/%s/meta.json' % name))
-    base = subprocess.check_output(['git', '-C', '/repo', 'rev-parse', '--short', 'HEAD'], text=True).strip()
+    import os
+    wt = '/tmp/wt/' + name
+    base = subprocess.check_output(['git', '-C', wt if os.path.isdir(wt) else '/repo', 'rev-parse', '--short', 'HEAD'], text=True).strip()
     e = {'name': name, 'property': m['property'], 'description': m['summary'][:230], 'base': base}
     idx.append(e)
     idx.sort(key=lambda x: x['name'])
